@@ -587,8 +587,8 @@ class CSSParser:
             if pseudo == ':root':
                 sel.flags |= ct.SEL_ROOT
             elif pseudo == ':defined':
-                sel.flags |= ct.SEL_DEFINED
-                is_html = True
+                # HTML only: nest it in its own HTML-only list so it does not affect the other alternatives
+                sel.selectors.append(ct.SelectorList([_Selector(flags=ct.SEL_DEFINED).freeze()], False, True))
             elif pseudo == ':scope':
                 sel.flags |= ct.SEL_SCOPE
             elif pseudo == ':empty':
@@ -905,7 +905,8 @@ class CSSParser:
         """Parse pseudo direction."""
 
         value = ct.SEL_DIR_LTR if util.lower(m.group('dir')) == 'ltr' else ct.SEL_DIR_RTL
-        sel.flags |= value
+        # HTML only: nest it in its own HTML-only list so it does not affect the other alternatives
+        sel.selectors.append(ct.SelectorList([_Selector(flags=value).freeze()], False, True))
         has_selector = True
         return has_selector
 
@@ -991,8 +992,6 @@ class CSSParser:
                     has_selector = self.parse_pseudo_lang(sel, m, has_selector)
                 elif key == 'pseudo_dir':
                     has_selector = self.parse_pseudo_dir(sel, m, has_selector)
-                    # Currently only supports HTML
-                    is_html = True
                 elif key == 'pseudo_close':
                     if not has_selector:
                         if not is_forgive:
